@@ -251,13 +251,17 @@ async fn isolate_case(rep: &mut Report, rng: &mut Rng, tr: Transport, faults: &[
     if !f.ok() || !recv_errs.is_empty() {
       // attribute to each fault of the scenario (usually one)
       let kind = if !recv_errs.is_empty() && recv_errs.iter().any(|e| e.contains("InvalidState") || e.contains("clos")) { "socket_shut_down".to_string() } else { f.kinds().join("+") };
+      // a socket that shut itself down in a scenario containing the connection burst: that is the burst's doing (event-bus lag)
+      if kind == "socket_shut_down" && faults.contains(&Fault::ConnectBurst) && *fl != Fault::ConnectBurst {
+        continue;
+      }
       rep.violation(format!("healthy_connection_disturbed|{}|fault={:?}", kind, fl), format!("{}: the healthy PUSH->PULL stream: {} (recv errors: {:?})", cfg, f.kinds().join("+"), recv_errs.iter().take(3).collect::<Vec<_>>()), json!({"config": cfg, "findings": f.to_json(), "recv_errors": recv_errs}));
     }
   }
   // socket still usable: API probe + listener still accepts a new honest peer
   let probe = tokio::time::timeout(Duration::from_secs(2), pull.get_option(opt::RCVHWM)).await;
   if !matches!(probe, Ok(Ok(_))) {
-    rep.violation(format!("socket_api_broken_after_fault|fault={:?}", faults[0]), format!("{}: get_option on the owning socket: {:?}", cfg, probe.map(|r| r.map(|_| ()).map_err(|e| e.to_string()))), json!({"config": cfg}));
+    rep.violation(format!("socket_api_broken_after_fault|fault={:?}", if faults.contains(&Fault::ConnectBurst) { Fault::ConnectBurst } else { faults[0] }), format!("{}: get_option on the owning socket: {:?}", cfg, probe.map(|r| r.map(|_| ()).map_err(|e| e.to_string()))), json!({"config": cfg}));
   }
   let late = ctx.socket(SocketType::Push).unwrap();
   util::set_i32(&late, opt::SNDTIMEO, 2000).await;
@@ -279,7 +283,7 @@ async fn isolate_case(rep: &mut Report, rng: &mut Rng, tr: Transport, faults: &[
     }
   }
   if !ok {
-    rep.violation(format!("listener_stopped_accepting|fault={:?}", faults[0]), format!("{}: a new honest peer connecting afterwards was not served", cfg), json!({"config": cfg}));
+    rep.violation(format!("listener_stopped_accepting|fault={:?}", if faults.contains(&Fault::ConnectBurst) { Fault::ConnectBurst } else { faults[0] }), format!("{}: a new honest peer connecting afterwards was not served", cfg), json!({"config": cfg}));
   }
   let _ = tokio::time::timeout(Duration::from_secs(12), ctx.term()).await;
 }
@@ -326,7 +330,7 @@ async fn reconnect_case(rep: &mut Report, ivl: u64, max: u64, tr: Transport) {
   let push = ctx.socket(SocketType::Push).unwrap();
   util::set_i32(&push, opt::RECONNECT_IVL, ivl as i32).await;
   util::set_i32(&push, opt::RECONNECT_IVL_MAX, max as i32).await;
-  util::set_i32(&push, opt::SNDTIMEO, 8000).await;
+  util::set_i32(&push, opt::SNDTIMEO, 8000 * util::slow_factor() as i32).await;
   let ipc_path = format!("{}/reconnect-{}-{}", util::ipc_dir(), ivl, max);
   let (lst, ep) = if tr == Transport::Ipc { RawListener::bind_unix(&ipc_path).await.unwrap() } else { RawListener::bind_tcp().await.unwrap() };
   let port = util::tcp_port_of(&ep);
@@ -334,7 +338,7 @@ async fn reconnect_case(rep: &mut Report, ivl: u64, max: u64, tr: Transport) {
   // phase 1: accept-and-drop; timestamps of the arrivals
   let mut stamps: Vec<Instant> = vec![];
   let t0 = Instant::now();
-  let observe = Duration::from_millis((ivl * 40).clamp(2500, 7000));
+  let observe = util::scaled(Duration::from_millis((ivl * 40).clamp(2500, 7000)));
   while t0.elapsed() < observe && stamps.len() < 9 {
     match tokio::time::timeout(observe.saturating_sub(t0.elapsed()), lst.accept()).await {
       Ok(Ok(r)) => {
@@ -371,7 +375,7 @@ async fn reconnect_case(rep: &mut Report, ivl: u64, max: u64, tr: Transport) {
   tokio::time::sleep(Duration::from_millis(300)).await;
   let rctx = util::new_ctx();
   let pull = rctx.socket(SocketType::Pull).unwrap();
-  util::set_i32(&pull, opt::RCVTIMEO, 8000).await;
+  util::set_i32(&pull, opt::RCVTIMEO, 8000 * util::slow_factor() as i32).await;
   let mut bound = false;
   let rebind_ep = if tr == Transport::Ipc { format!("ipc://{}", ipc_path) } else { format!("tcp://127.0.0.1:{}", port) };
   for _ in 0..20 {
@@ -387,7 +391,7 @@ async fn reconnect_case(rep: &mut Report, ivl: u64, max: u64, tr: Transport) {
     let t1 = Instant::now();
     let s = push.send(util::msg(b"resumed".to_vec(), false)).await;
     let r = pull.recv().await;
-    let bound_ms = (if max > 0 { max } else { ivl * 64 }).max(ivl) * 2 + 3000;
+    let bound_ms = (if max > 0 { max } else { ivl * 64 }).max(ivl) * 2 + 3000 * util::slow_factor() as u64;
     if !matches!(&r, Ok(m) if m.data() == Some(b"resumed")) || t1.elapsed() > Duration::from_millis(bound_ms) {
       rep.violation(format!("traffic_did_not_resume_after_listener_came_back|{}", tr.name()), format!("{}: once a PULL listened on the port again: send {:?}, recv {:?} after {:?}", cfg, s.map_err(|e| e.to_string()), r.map(|m| m.size()).map_err(|e| e.to_string()), t1.elapsed()), json!({"config": cfg}));
     }
